@@ -98,6 +98,12 @@ def cases(tier, seed):
             out.append(dict(cell, d=3, dev=dev + 1))
         for cell, dev in explore.cells(explore.recentre(dims, CENTRE2), 2):
             out.append(dict(cell, d=d, dev=dev + 10))
+    # construction histories in ONE process: a scalar/vector model with normalisation built BEFORE a model with pseudo
+    # types of the same width (and the reverse), for module-level caches keyed too coarsely
+    base = {k: v[0] for k, v in dims.items()}
+    for cls in ("ResNet", "UNet"):
+        for first, second in (("sv", "svp"), ("svp", "sv"), ("s", "svp")):
+            out.append(dict(base, d=2, cls=cls, norm=True, history=[first, second], sig=second, dev=20))
     out = [_normalise(c) for c in out]
     out = explore.dedupe(out, lambda c: repr(sorted(((k, v) for k, v in c.items() if k != "dev"), key=lambda kv: kv[0])))
     for c in out:
@@ -121,6 +127,18 @@ def _flags(c):
 
 
 def run_case(case, seed):
+    if case.get("history"):
+        res = None
+        for sig in case["history"]:
+            sub = {k: v for k, v in case.items() if k != "history"}
+            sub["sig"] = sig
+            res = run_case(sub, seed)
+            if res.get("violations"):
+                for x in res["violations"]:
+                    x["fp"] = x["fp"].replace("C07/", "C07/history/", 1)
+                    x["msg"] = f"after building {case['history']} in this order in one process: " + x["msg"]
+                return res
+        return res
     if not enabled(case):
         return {"status": "disabled"}
     from vlib import mlh
